@@ -25,7 +25,16 @@ prefer = common.prefer
 
 
 def queries(tier, seed=0):
-    return dyn.base_queries(tier, level='gen')
+    qs = dyn.base_queries(tier, level='gen')
+    # the reward does not depend on the observation mode: repeat a slice fully observable / 2-D
+    extra = []
+    for q in qs:
+        if q['shape']['sizes'] == [1, 1] and q.get('os') is None:
+            d = dict(q)
+            d['fully_obs'] = True
+            d['flat_obs'] = False
+            extra.append(d)
+    return qs + extra
 
 
 run = dyn.run
